@@ -745,6 +745,17 @@ int _vnadata_load_npd(vnadata_internal_t *vdip, FILE *fp, const char *filename)
 	    break;
 
 	case VPT_ZIN:
+	    if (ports < 1) {
+		/*
+		 * A 1x0 vector still counts as one port for the z0
+		 * vectors, which the file doesn't provide.
+		 */
+		_vnadata_error(vdip, VNAERR_SYNTAX, "%s (line %d) error: "
+			"%s parameters require at least one port",
+			nss.nss_filename, parameter_line,
+			_vnadata_format_to_name(vfdp));
+		goto out;
+	    }
 	    drows = 1;
 	    dcolumns = ports;
 	    fields = 2 * ports;
